@@ -127,6 +127,10 @@ class Repo:
             for ch in ast.iter_child_nodes(node):
                 if isinstance(ch, (ast.FunctionDef, ast.AsyncFunctionDef)):
                     qual = f"{prefix}{ch.name}"
+                    for d in ch.decorator_list:
+                        # `@name.setter def name(self, value)`: indexed beside the property's getter, not over it
+                        if isinstance(d, ast.Attribute) and d.attr in ("setter", "deleter") and isinstance(d.value, ast.Name) and d.value.id == ch.name:
+                            qual = f"{prefix}{ch.name}.{d.attr}"
                     fi = FuncInfo(rel, qual, ch, cls, parent)
                     self.funcs[(rel, qual)] = fi
                     visit(ch, qual + ".", cls, fi)
